@@ -20,8 +20,11 @@ TRUSTED = [
     "an existing object), the text path json.loads(json.dumps(.)) and from_json(to_json(.)) are evaluated by vm_compute on snapshots of "
     "real Message objects and compared with the implementation's outputs and with snapshots of the objects it builds",
     "oracles inside the model, validated by this correspondence only: float repr/float() (identity on finite doubles), JSON string escapes, "
-    "isoformat / dateutil.isoparse calendar (executable civil-from-days; Proofs/C04CalP.v proves the inverse for years 1..9999 by sweep), "
-    "base64 (concrete model, inverse proved), Decimal literal reading of Duration strings (Model/Time.v, C15)",
+    "isoformat / dateutil.isoparse calendar (executable civil-from-days; the inverse is PROVED for years 1..9999: C04_calendar_inverse, one "
+    "400-year era by vm_compute sweep + periodicity), base64 (concrete model, inverse PROVED: C04_base64_inverse), "
+    "Decimal literal reading of Duration strings (Model/Time.v, C15)",
+    "imported lemmas of other properties: Proofs/TimeP.v (C15: decimal notation, Duration string round trip), Proofs/EnumP.v (C20: enum "
+    "JSON element round trip), Model/Casing.v field_for_key (C19)",
     "translator harness/gen_tables.py (INT_64_TYPES, JSON_INFINITY/NAN, wrapper table, keyword list)",
     "Python side: harness/msggen.py, harness/jsongen.py (generators, snapshots, JSON literal printers, feature walk)",
 ]
@@ -109,6 +112,11 @@ def regression_messages(s):
         ("enum-unnamed-repeated", KRep(**{fn("r_enum"): [E.try_value(5), E(1), E(-1), E.try_value(-2147483648)]})),
         ("duration-1us", KPlain(**{fn("p_message", "timedelta"): timedelta(microseconds=1)})),
         ("duration-long", KPlain(**{fn("p_message", "timedelta"): timedelta(microseconds=-(2 ** 53) - 1)})),
+        # every fraction class of the Timestamp / Duration strings (0, 3, 6 digits; leading zeros), range ends, pre-epoch
+        ("timestamp-fractions", KRep(**{fn("r_message", "datetime"): [msggen.EPOCH + timedelta(microseconds=u) for u in
+                                        (0, 5000, 50000, 500000, 5, 50, 500, 5005, 999999, -1, -5000, 1000000, 253402300799999999, -62135596800000000)]})),
+        ("duration-fractions", KRep(**{fn("r_message", "timedelta"): [timedelta(microseconds=u) for u in
+                                       (0, 5000, 50000, 500000, 5, 50, 500, 5005, 999999, -1, -5000, -1000000, 1000000, 315576000000 * 10 ** 6, -315576000000 * 10 ** 6)]})),
         ("oneof-default-member", KOneof(**{fn("u_int32"): 0})),
         ("oneof-empty-message", KOneof(e=C["Empty"]())),
     ]
@@ -304,6 +312,7 @@ def run(ctx):
         # ---- side conditions evaluated inside Coq agree with the feature walk
         add(f"cbool (json_supported sc{si} o)", cbool(supported))
         add(f"cbool (oneof_ok sc{si} o)", cbool(clean))
+        add(f"cbool (dicts_ok sc{si} o)", cbool(True))
         in_range = jsongen.in_range(s, m)
         wf = si not in not_wf
         if wf:
